@@ -186,6 +186,9 @@ def no_bad_outcomes(run, node_tag, desc_of_path, props=("C04",)):
         if p.outcome.kind in ("panic", "unreachable", "loopbound"):
             role = f"C04:{node_tag}{desc_of_path(p)}:{p.outcome.kind}:{(p.outcome.msg or '')[:60]}"
             obls.append(Obl(role, set(props), f"{role}#path{pi}", p, z3.BoolVal(False), {"msg": p.outcome.msg}))
+        else:
+            role = f"C04:{node_tag}{desc_of_path(p)}:path-ends-in-return"
+            obls.append(Obl(role, set(props), f"{role}#path{pi}", p, z3.BoolVal(True)))
     return obls
 
 
